@@ -7,20 +7,36 @@ the two `flags` functions.  Anything it cannot parse makes it exit non-zero (the
 it never guesses)."""
 import re, sys, os, pathlib
 
-def lit(s, env):
+WIDTH = {'u8': 8, 'u16': 16, 'u32': 32, 'u64': 64, 'usize': 64}
+
+def lit(s, env, ty='u64'):
+    """value of a constant expression: integer literals, earlier constants, `uN::MAX [as T]`, and the operators
+    ! | & ^ << >> + - * with parentheses (`!` is taken at the declared width of the constant)"""
     s = s.strip()
-    m = re.fullmatch(r'(0b[01_]+|0x[0-9a-fA-F_]+|[0-9][0-9_]*)(?:_?(?:u8|u16|u32|u64|usize))?', s)
-    if m:
-        t = m.group(1).replace('_', '')
-        return int(t, 0)
-    if '+' in s:
-        return sum(lit(p, env) for p in s.split('+'))
-    if re.fullmatch(r'[A-Z_0-9]+', s) and s in env:
-        return env[s]
-    m = re.fullmatch(r'u16::MAX as usize', s)
-    if m:
-        return 65535
-    raise ValueError('cannot parse literal: %r' % s)
+    toks = re.findall(r'0b[01_]+|0x[0-9a-fA-F_]+|[0-9][0-9_]*(?:_?(?:u8|u16|u32|u64|usize))?|u(?:8|16|32|64|size)::MAX|as\s+\w+|[A-Za-z_][A-Za-z_0-9]*|<<|>>|[!|&^+\-*()]', s)
+    if ''.join(toks).replace(' ', '') != re.sub(r'\s', '', s):
+        raise ValueError('cannot parse literal: %r' % s)
+    mask = (1 << WIDTH.get(ty, 64)) - 1
+    out = []
+    for t in toks:
+        if re.fullmatch(r'0b[01_]+|0x[0-9a-fA-F_]+|[0-9][0-9_]*(?:_?(?:u8|u16|u32|u64|usize))?', t):
+            t2 = re.sub(r'_?(?:u8|u16|u32|u64|usize)$', '', t).replace('_', '')
+            out.append(str(int(t2, 0)))
+        elif re.fullmatch(r'u(8|16|32|64|size)::MAX', t):
+            out.append(str((1 << WIDTH['u' + t[1:].split('::')[0]]) - 1))
+        elif t.startswith('as'):
+            continue
+        elif t == '!':
+            out.append('%d ^ ' % mask)
+        elif re.fullmatch(r'[A-Za-z_][A-Za-z_0-9]*', t):
+            if t not in env: raise ValueError('cannot parse literal: %r' % s)
+            out.append(str(env[t]))
+        else:
+            out.append(t)
+    try:
+        return eval(' '.join(out), {'__builtins__': {}}) & mask          # only digits and operators reach eval
+    except Exception:
+        raise ValueError('cannot parse literal: %r' % s)
 
 def strip_comments(src):
     src = re.sub(r'//[^\n]*', '', src)
@@ -39,10 +55,11 @@ def main(repo, outdir):
         rel = p.relative_to(src).with_suffix('')
         mod = '_'.join(rel.parts)
         for m in re.finditer(r'^\s*(?:pub(?:\([a-z:]+\))?\s+)?const\s+([A-Z_0-9]+)\s*:\s*([a-z0-9]+)\s*=\s*([^;]+);', body, re.M):
-            pending.append((mod, m.group(1), m.group(3), str(rel)))
+            pending.append((mod, m.group(1), m.group(3), str(rel), m.group(2)))
         for m in re.finditer(r'try_from_enum_to_integer(?:_without_display)?!\s*\{(.*?)\n\}', body, re.S):
             blk = m.group(1)
             em = re.search(r'enum\s+(\w+)\s*\{(.*)\}', blk, re.S)
+            if '$' in blk: continue          # inside a macro definition that forwards its input: not an enum
             if not em:
                 raise SystemExit('extract_consts: cannot find enum in %s' % p)
             ename, inner = em.group(1), em.group(2)
@@ -63,19 +80,20 @@ def main(repo, outdir):
     while pending and progress:
         progress = False
         rest = []
-        for mod, name, expr, rel in pending:
+        for mod, name, expr, rel, ty in pending:
             env = {n.split('__')[-1]: v for n, v in done.items()}
             env.update({n.split('__')[-1]: v for n, v in done.items() if n.startswith(mod + '__')})
             try:
-                v = lit(expr, env)
+                v = lit(expr, env, ty)
             except ValueError:
-                rest.append((mod, name, expr, rel)); continue
+                rest.append((mod, name, expr, rel, ty)); continue
             done['%s__%s' % (mod, name)] = v
             consts.append(('%s__%s' % (mod, name), v, rel))
             progress = True
         pending = rest
-    if pending:
-        raise SystemExit('extract_consts: cannot evaluate constants: %r' % pending)
+    unevaluated = ['%s__%s' % (mod, name) for mod, name, expr, rel, ty in pending]
+    # a constant whose initialiser is not understood is left out: the tie theorems that name it are then reported as
+    # "still defined but its value can no longer be extracted" by runner/tie.py for the properties that depend on it
     consts.sort()
     # flag masks / shifts, in order of appearance
     def flaglits(path):
@@ -108,7 +126,7 @@ def main(repo, outdir):
             f.write(',\n'.join('  ("%s", %d)' % (a, b) for a, b in vs))
             f.write(']\n')
         f.write('end Gen\n')
-    print('extract_consts: %d constants, %d enums' % (len(consts), len(enums)))
+    print('extract_consts: %d constants, %d enums%s' % (len(consts), len(enums), ('; not evaluated: ' + ', '.join(unevaluated)) if unevaluated else ''))
 
 if __name__ == '__main__':
     repo = sys.argv[1] if len(sys.argv) > 1 else '/repo'
